@@ -43,6 +43,19 @@ def _run_shard(args):
         return ('ERR', repr(spec)[:300], traceback.format_exc())
 
 
+def _run_lane(args):
+    """One worker process = one LANE: a fixed list of shards run in a fixed order.  Which shards share a process (and so any
+    module-level state of the code under test) is a function of the shard list and the job count only - never of timing."""
+    mod, specs, tier = args
+    out = []
+    for spec in specs:
+        r = _run_shard((mod, spec, tier))
+        out.append(r)
+        if isinstance(r, tuple) and r and r[0] == 'ERR':
+            break
+    return out
+
+
 def main() -> int:
     ap = argparse.ArgumentParser()
     ap.add_argument('prop')
@@ -94,20 +107,25 @@ def main() -> int:
         shards = shards[k:] + shards[:k]  # seed only rotates the order; the set explored is identical
     res = report.Result()
     jobs = max(1, min(a.jobs, len(shards)))
-    work = [(modname, s, a.tier) for s in shards]
-    if jobs == 1 or getattr(driver, 'SERIAL', False):
-        outs = map(_run_shard, work)
+    if getattr(driver, 'SERIAL', False):
+        jobs = 1
+    lanes = [(modname, shards[k::jobs], a.tier) for k in range(jobs)]   # static round-robin partition: deterministic process histories
+    if jobs == 1:
+        outs = map(_run_lane, lanes)
         pool = None
     else:
         ctx = mp.get_context('fork')
-        pool = ctx.Pool(jobs, maxtasksperchild=getattr(driver, 'MAXTASKS', None))
-        outs = pool.imap_unordered(_run_shard, work, chunksize=1)
+        pool = ctx.Pool(jobs)
+        outs = pool.imap(_run_lane, lanes, chunksize=1)
     err = None
-    for o in outs:
-        if isinstance(o, tuple) and o and o[0] == 'ERR':
-            err = o
+    for lane in outs:
+        for o in lane:
+            if isinstance(o, tuple) and o and o[0] == 'ERR':
+                err = o
+                break
+            res.merge(o)
+        if err:
             break
-        res.merge(o)
     if pool is not None:
         pool.terminate()
         pool.join()
